@@ -356,7 +356,7 @@ func VerifSVGPathCurves(n int) {
 	verifPathCheck(d)
 }
 
-var verifNumLex = []string{"0", "1", "-1", ".5", "-.5", "1.5", "10", "1e1", "0.5", "100", "-0", "1.0", "5e-1", "+2"}
+var verifNumLex = []string{"0", "1", "-1", ".5", "-.5", "1.5", "10", "1e1", "0.5", "100", "-0", "1.0", "5e-1", "+2", "1000", "1e100", "1e-100", "100e10", "1200", "0.001", "12e2"}
 
 // VerifSVGPathNumbers: M a b L c d l e f with lexemes from a list of notations (sign/dot adjacency, exponents):
 // separator elision between numbers.
@@ -479,4 +479,28 @@ func VerifSVGTwin(n int) {
 	p := NewPathData(&Minifier{})
 	out := p.ShortenPathData([]byte("M0 0L10 10"))
 	vAssert(len(out) > 100, "twin: must fail")
+}
+
+var verifSVGTreeDocs = []string{
+	"<svg xmlns=\"http://www.w3.org/2000/svg\" xmlns:svg=\"http://www.w3.org/2000/svg\"><svg:g><svg:rect width=\"1\" height=\"1\"/></svg:g></svg>",
+	"<svg:svg xmlns:svg=\"http://www.w3.org/2000/svg\"><svg:g id=\"a\"></svg:g></svg:svg>",
+	"<svg><g><defs/><path d=\"M0 0\"/></g><sodipodi:namedview><x/></sodipodi:namedview><text> a <tspan>b</tspan> c </text></svg>",
+	"<svg><defs><linearGradient id=\"g\"/></defs><metadata><rdf:RDF/></metadata><rect fill=\"url(#g)\"/></svg>",
+	"<svg><foreignObject><p xmlns=\"http://www.w3.org/1999/xhtml\">x <b>y</b></p></foreignObject></svg>",
+}
+
+// VerifSVGTree (C05/C09): document templates with namespaced elements, editor elements, metadata, text and
+// foreignObject: the output is well-formed (reference XML reader) and the kept elements nest as in the input.
+func VerifSVGTree(n int) {
+	doc := verifSVGTreeDocs[vChoice("doc", len(verifSVGTreeDocs))]
+	o := &Minifier{Inline: vBool("Inline"), KeepComments: vBool("KeepComments")}
+	w := &vWriter{}
+	err := o.Minify(minify.New(), w, &vReader{b: []byte(doc)}, nil)
+	out := w.buf
+	vReach("after-call")
+	vOutput("out", out)
+	vAssert(err == nil, "accepted")
+	_, ok := rxRead(out)
+	vAssert(ok, "output is well-formed XML (start and end tags match)")
+	vReach("end")
 }
